@@ -18,6 +18,7 @@ import (
 	"path/filepath"
 	"regexp"
 	"strings"
+	"sync"
 	"time"
 
 	"github.com/magisterquis/curlrevshell/lib/opshell"
@@ -139,7 +140,7 @@ func c07(r *ev.Result, tier string) {
 
 	/* (a) address precedence. */
 	params := [][2]string{{"", ""}, {"p.example:8443", "p.example:8443"}, {"p.example/x~y", "p.example%2Fx%7Ey"}, {"[2001:db8::1]:8443", "%5B2001:db8::1%5D:8443"}}
-	hosts := [][2]string{{"", ""}, {"host.example", "host.example"}, {"host.example:8443", "host.example:8443"}, {"b\xc3\xbccher.example", "xn--bcher-kva.example"}, {"m\xc3\xbcnchen.example:4444", "xn--mnchen-3ya.example:4444"}}
+	hosts := [][2]string{{"", ""}, {"host.example", "host.example"}, {"host.example:8443", "host.example:8443"}, {"[::1]:4444", "[::1]:4444"}, {"[2001:db8::10]", "[2001:db8::10]"}, {"192.0.2.9:8443", "192.0.2.9:8443"}, {"b\xc3\xbccher.example", "xn--bcher-kva.example"}, {"m\xc3\xbcnchen.example:4444", "xn--mnchen-3ya.example:4444"}}
 	seen := map[string]bool{}
 	for _, listen := range []string{"127.0.0.1:0", "[::1]:0"} {
 		w, err := hworld.Start(hworld.Config{Listen: listen})
@@ -240,6 +241,71 @@ func c07(r *ev.Result, tier string) {
 		r.Add(n)
 		r.AddDistinct(n)
 		r.Set("distinct_ids_seen", len(seen))
+	}
+
+	/* (c') freshness when scripts are requested concurrently. */
+	{
+		w, err := hworld.Start(hworld.Config{})
+		if nil != err {
+			ev.Broken("%s", err)
+		}
+		var (
+			mu   sync.Mutex
+			ids  = map[string]int{}
+			wg   sync.WaitGroup
+			nper = 1500
+		)
+		if !quick {
+			nper = 6000
+		}
+		for g := 0; g < 16; g++ {
+			wg.Add(1)
+			go func() {
+				defer wg.Done()
+				c, err := w.Dial("")
+				if nil != err {
+					return
+				}
+				defer c.Close()
+				local := make([]string, 0, nper)
+				for i := 0; i < nper; i++ {
+					res, err := c.Do(hworld.Get("/c", w.Addr))
+					if nil != err {
+						return
+					}
+					if m := c07CurlRE.FindSubmatch(res.Body); nil != m {
+						local = append(local, string(m[4]))
+					}
+				}
+				mu.Lock()
+				for _, id := range local {
+					ids[id]++
+				}
+				mu.Unlock()
+			}()
+		}
+		done := make(chan struct{})
+		go func() { wg.Wait(); close(done) }()
+		for drained := false; !drained; {
+			select {
+			case <-done:
+				drained = true
+			default:
+				w.Drain()
+				time.Sleep(time.Millisecond)
+			}
+		}
+		w.Stop()
+		dups := 0
+		for id, n := range ids {
+			if n > 1 {
+				dups++
+				v("id-repeated/concurrent", fmt.Sprintf("ID %q was handed out %d times to concurrent requests", id, n), nil)
+			}
+		}
+		r.Add(len(ids))
+		r.AddDistinct(len(ids))
+		r.Set("concurrent_scripts_distinct_ids", len(ids))
 	}
 
 	/* (b) template histories. */
